@@ -582,7 +582,30 @@ func ruleC02SEID(w *World, r *Report, handlers map[string]*ssa.Function, accepte
 				if !ok || fieldVar(fb) != fieldVar(fa) {
 					return
 				}
-				stale := reach(h, ld, func(x ssa.Instruction) bool { return x == ssa.Instruction(st) }, nil, nil) != nil
+				// the copy lives in a local cell: it is stale only if the cell still holds it when the field is
+				// replaced (a cell that is given the new SEID before the field is — `remoteSEID = fseid.SEID;
+				// session.remoteSEID = remoteSEID` — is current)
+				var cells []ssa.Value
+				for _, ref := range *ld.Referrers() {
+					if cs, ok := ref.(*ssa.Store); ok && cs.Val == ssa.Value(ld) {
+						if _, isCell := cs.Addr.(*ssa.Alloc); isCell {
+							cells = append(cells, cs.Addr)
+						}
+					}
+				}
+				rewritten := func(x ssa.Instruction) bool {
+					cs, ok := x.(*ssa.Store)
+					if !ok || cs.Val == ssa.Value(ld) || len(cells) == 0 {
+						return false
+					}
+					for _, c := range cells {
+						if cs.Addr != c {
+							return false
+						}
+					}
+					return len(cells) == 1
+				}
+				stale := reach(h, ld, func(x ssa.Instruction) bool { return x == ssa.Instruction(st) }, rewritten, nil) != nil
 				r.check(!stale, "R02.3", hn, "CP SEID is read after the request's CP F-SEID was applied", w.Pos(ld.Pos()), "no store to session.remoteSEID follows the read", "session.remoteSEID is copied for the response before the CP F-SEID of this request is applied: the response is addressed to the old CP SEID")
 			})
 		})
